@@ -8,7 +8,7 @@ HOOK_COMMITS = [
 ]
 
 # harness packages compiled by bin/setup (those of the registered checks)
-SETUP_PACKAGES = ["brl", "sched", "buildclient", "filepool", "execpipe", "poolfile", "inputroot"]
+SETUP_PACKAGES = ["brl", "sched", "buildclient", "filepool", "execpipe", "poolfile", "inputroot", "suspclock", "outputs"]
 
 NOT_APPLICABLE = {}
 
@@ -75,4 +75,13 @@ PENDING["C17"] = {
     "design_ref": "DESIGN.md section 4 (C17)",
     "note": _NOTE + " One goroutine per scenario, case-sensitive normalizer; the native (naiveBuildDirectory / HardlinkingFileFetcher) path is not covered.",
     "technique": "TLA+ reference model + TLC exhaustive design check + TLC validation of seeded real-code traces",
+}
+
+CHECKS["C16"] = PENDING.pop("C16")
+CHECKS["C17"] = PENDING.pop("C17")
+CHECKS["C11"] = {
+    "text": "SuspClock.tla: reference model of the SuspendableClock re-arm loop with parametric timing equations (expiry only with unsuspended elapsed in (timeout - threshold, timeout] or at wall = timeout + maximum compensation; a running object never exceeds either bound; reported duration = unsuspended time however the object ended; Resume never without Suspend; re-arm asks for exactly the remaining budget); TLC checks all timelines of bounded configurations. The real SuspendableClock (NewContextWithTimeout, NewTimer, nested Suspend/Resume, own and parent cancel) runs over a harness-owned base clock inside testing/synctest: exhaustive enumeration of suspension-level patterns over H unit intervals with both orders of timer delivery vs suspension change, seeded random timelines with concurrent contexts/timers and storage operations, and every method of SuspendingBlobAccess / SuspendingDirectoryFetcher over gated backends (8 reply kinds x 14 buffer uses); TLC recomputes the unsuspended integral from the logged events and judges every observation of Done/Err/UnsuspendedDurationKey and the suspend/resume bracketing of every storage operation.",
+    "design_ref": "DESIGN.md section 3 (C11)",
+    "note": _NOTE + " The base clock is punctual (a due timer is delivered before time advances), whole milliseconds, timeoutThreshold > 0; localBuildExecutor's use of the clock is not covered.",
+    "technique": "TLA+ reference model checked by TLC; TLC validation of real-code timelines (exhaustive small patterns + random) and of wrapper bracketing traces",
 }
